@@ -35,6 +35,7 @@ type fnode struct {
 	spins    int
 	rank     int
 	honour   bool
+	span     bool
 	children []*fnode
 	conn     *cnode
 	id       int
@@ -71,7 +72,7 @@ func (b *builder) add(it *itemT) int {
 }
 
 func plainItem(n *fnode, parent int) *itemT {
-	it := &itemT{kind: n.kind, bkey: n.bkey, parent: parent, ok: n.outcome != 1, mode: n.mode, spins: n.spins, rank: n.rank, honour: n.honour}
+	it := &itemT{kind: n.kind, bkey: n.bkey, parent: parent, ok: n.outcome != 1, mode: n.mode, spins: n.spins, rank: n.rank, honour: n.honour, span: n.span}
 	return it
 }
 
@@ -713,6 +714,22 @@ func main() {
 						})
 					}
 				}
+			}
+		}
+		// 5b. a Go function of one event that returns only while the NEXT event's idle handler is
+		// blocked in its receive (the asyncResolutions channel is shared by the events of a subscription)
+		for rep := 0; rep < 12; rep++ {
+			for events := 2; events <= 3; events++ {
+				events := events
+				gmp := gmps[idx%len(gmps)]
+				idx++
+				h.Case(func(r *rng.R) sexp.Node {
+					parent := &fnode{kind: kGo, mode: mLate, children: []*fnode{
+						{kind: kGo, leaf: true, mode: mLate, rank: 1, span: true},
+						{kind: kSync, leaf: true, nonnull: true, outcome: 1},
+					}}
+					return runCaseWS([]*fnode{parent}, gmp, [nBatch]int{}, events, events-1)
+				})
 			}
 		}
 		// 6. the request context is cancelled at a generated point; half of the Go functions look at
